@@ -1124,6 +1124,11 @@ void FipsGateSim::do_entry(const GEntry &ge, const Op &o, Env &e, RunResult &r)
                 uint8_t *src = in(len, 1, 3);
                 uint8_t *dst = out(len);
                 finish_args();
+                e.secrets.clear();
+                e.secrets.add_range(key, keybytes3[k] >= 32 ? 32 : 16, "the raw key");
+                e.secrets.add_range(enc, 16 * rounds3[k], "an encryption round key");
+                e.secrets.add_range(dec, 16 * rounds3[k], "a decryption round key");
+                e.scan_secrets = true;
                 rc = e.call(nm, ge.fn, { U(src), U(iv), U(ge.b ? dec : enc), U(dst), len });
                 (void) rounds3;
                 break;
@@ -1133,6 +1138,9 @@ void FipsGateSim::do_entry(const GEntry &ge, const Op &o, Env &e, RunResult &r)
                 uint8_t *enc = out(16 * rounds3[k], 16, "enc schedule out");
                 uint8_t *dec = out(16 * rounds3[k], 16, "dec schedule out");
                 finish_args();
+                e.secrets.clear();
+                e.secrets.add_range(key, keybytes3[k] >= 32 ? 32 : 16, "the raw key");
+                e.scan_secrets = true;
                 rc = e.call(nm, ge.fn, { U(key), U(enc), U(dec) });
                 break;
         }
@@ -1157,16 +1165,25 @@ void FipsGateSim::do_entry(const GEntry &ge, const Op &o, Env &e, RunResult &r)
                 uint8_t *aad = in(aadl, 1, 3);
                 size_t len = degen ? 0 : nt ? 64 * (o.c % 4) : (size_t) (o.c % 200);
                 size_t al = nt ? 64 : 1;
+                auto gcm_needles = [&]() {
+                        e.secrets.clear();
+                        e.secrets.add_range(key, k ? 32 : 16, "the raw key");
+                        e.secrets.add_range(kd, 16 * (k ? 15 : 11), "an encryption round key");
+                        e.secrets.add_range(kd + 16 * 15, sizeof(struct isal_gcm_key_data) - 16 * 15, "the GHASH key or one of its powers");
+                        e.scan_secrets = true;
+                };
                 if (ge.driver == D_GCM_ONESHOT) {
                         uint8_t *gctx = out(sizeof(struct isal_gcm_context_data), 8, "gcm context");
                         uint8_t *src = in(len, al, 4);
                         uint8_t *dst = out(len, al);
                         uint8_t *tag = out(16, 1, "tag out");
                         finish_args();
+                        gcm_needles();
                         rc = e.call(nm, ge.fn, { U(kd), U(gctx), U(dst), U(src), len, U(iv), U(aad), aadl, U(tag), 16 });
                 } else if (ge.driver == D_GCM_INIT) {
                         uint8_t *gctx = out(sizeof(struct isal_gcm_context_data), 8, "gcm context");
                         finish_args();
+                        gcm_needles();
                         rc = e.call(nm, ge.fn, { U(kd), U(gctx), U(iv), U(aad), aadl });
                 } else {
                         uint8_t *gctx = e.mem.alloc(sizeof(struct isal_gcm_context_data), 8, START_FLUSH, &e.hidden, "gcm context", R_OBJECT);
@@ -1176,10 +1193,12 @@ void FipsGateSim::do_entry(const GEntry &ge, const Op &o, Env &e, RunResult &r)
                                 uint8_t *src = in(len, al, 4);
                                 uint8_t *dst = out(len, al);
                                 finish_args();
+                                gcm_needles();
                                 rc = e.call(nm, ge.fn, { U(kd), U(gctx), U(dst), U(src), len });
                         } else {
                                 uint8_t *tag = out(16, 1, "tag out");
                                 finish_args();
+                                gcm_needles();
                                 rc = e.call(nm, ge.fn, { U(kd), U(gctx), U(tag), 16 });
                         }
                 }
@@ -1211,6 +1230,22 @@ void FipsGateSim::do_entry(const GEntry &ge, const Op &o, Env &e, RunResult &r)
                 } else if (xts_same)
                         r.cov.hit("fault_xts_same_keys_raw");
                 finish_args();
+                {
+                        // needles: raw keys and every schedule of both keys (computed with the internal key expansion, not judged)
+                        uint8_t *n1e = e.mem.alloc(16 * 15, 16, START_FLUSH, &e.hidden, "key1 enc schedule (needles)", R_OBJECT);
+                        uint8_t *n1d = e.mem.alloc(16 * 15, 16, START_FLUSH, &e.hidden, "key1 dec schedule (needles)", R_OBJECT);
+                        uint8_t *n2e = e.mem.alloc(16 * 15, 16, START_FLUSH, &e.hidden, "key2 enc schedule (needles)", R_OBJECT);
+                        uint8_t *n2d = e.mem.alloc(16 * 15, 16, START_FLUSH, &e.hidden, "key2 dec schedule (needles)", R_OBJECT);
+                        direct(int_keyexp[kk], { U(key1), U(n1e), U(n1d) });
+                        direct(int_keyexp[kk], { U(key2), U(n2e), U(n2d) });
+                        e.secrets.clear();
+                        e.secrets.add_range(key1, kb >= 32 ? 32 : 16, "raw key1");
+                        e.secrets.add_range(key2, kb >= 32 ? 32 : 16, "raw key2");
+                        e.secrets.add_range(n1e, 16 * rounds3[kk], "a round key of key1");
+                        e.secrets.add_range(n1d, 16 * rounds3[kk], "a decryption round key of key1");
+                        e.secrets.add_range(n2e, 16 * rounds3[kk], "a round key of key2");
+                        e.scan_secrets = true;
+                }
                 rc = e.call(nm, ge.fn, { U(a2), U(a1), U(tweak), len, U(src), U(dst) });
                 break;
         }
@@ -1393,3 +1428,12 @@ void FipsGateSim::do_entry(const GEntry &ge, const Op &o, Env &e, RunResult &r)
 
 Sim *make_fipsrace_sim() { return new FipsRaceSim(); }
 Sim *make_fipsgate_sim() { return new FipsGateSim(); }
+
+// Called by the driver before a workload that is not one of the FIPS simulations runs in the FIPS binary: the self-tests count as
+// passed (as after any earlier library call of the process), so that a run does not depend on what the worker executed before.
+void fips_mark_self_tests_passed()
+{
+        volatile uint32_t *st = (volatile uint32_t *) libsym("self_test_status", false);
+        if (st)
+                *st = 0; // SELF_TEST_DONE_AND_OK
+}
